@@ -82,7 +82,7 @@ theorem honest_range (h : String) (no lpb : Nat) (h1 : lpb < no) (h2 : no < u64)
     rangeMin ⟨h, no, honestConfirms no lpb⟩ = lpb + 1 ∧
       ∀ k, inRange ⟨h, no, honestConfirms no lpb⟩ k = true ↔ (lpb < k ∧ k ≤ no) := by
   have e : rangeMin ⟨h, no, honestConfirms no lpb⟩ = lpb + 1 := by
-    simp only [rangeMin, honestConfirms, u64] at *
+    simp only [rangeMin, honestConfirms, Gen.LibQuorum.factoryConfirms, u64] at *
     omega
   refine ⟨e, fun k => ?_⟩
   simp only [inRange, e, Bool.and_eq_true, decide_eq_true_eq]
